@@ -221,7 +221,7 @@ func mayAuth(c *Conn) bool {
 }
 
 //@ rule (c *Conn)
-//@   props C05:callsite,post,pre@call C06:safety
+//@   props C05:callsite,post,pre@call C06:bounds,assert-type,div0,panic-unreachable
 //@   requires c != nil && c.server != nil
 //@   callsite Session.Login requires mayAuth(c)
 //@   callsite Session.Select requires authed(c)
@@ -290,3 +290,13 @@ func mayAuth(c *Conn) bool {
 
 //@ func (c *Conn) readCommand(dec *imapwire.Decoder) (err error)
 //@   ensures old(c.state) == imap.ConnStateLogout ==> true
+
+// Explicit panics that guard configuration, not client input.
+
+//@ func (c *Conn) availableCaps() (result []imap.Cap)
+//@   panics assumed-unreachable imapserver.New refuses a configuration without IMAP4rev1/IMAP4rev2, so at least one of them is available
+//@   ensures c.state == old(c.state)
+
+//@ func (c *Conn) handleStartTLS(tag string, dec *imapwire.Decoder) (err error)
+//@   panics assumed-unreachable io.CopyN of exactly Buffered() bytes from a bufio.Reader into a bytes.Buffer cannot fail (stdlib contract)
+//@   ensures c.state == old(c.state)
